@@ -202,9 +202,10 @@ var propRules = map[string]*PropSpec{
 		Technique:  techMix,
 	},
 	"C12": {
-		Rules:       []string{"P1", "P3", "P4", "PT", "A1.api32", "A2.32", "A3.32", "G1", "U3", "PT2", "P6", "A2.64", "A3.64", "P2", "A1.bsi", "U1", "PC2", "F10.bsi", "A1.slices", "LEN1", "CACHE1", "SW1"},
+		Rules:       []string{"P1", "P3", "P4", "PT", "A1.api32", "A2.32", "A3.32", "G1", "U3", "PT2", "P6", "A2.64", "A3.64", "P2", "A1.bsi", "U1", "PC2", "F10.bsi", "A1.slices", "LEN1", "CACHE1", "SW1", "P7"},
 		Explanation: explBase + " C12: protocol skeleton only: WaitGroup pairing, single close by the creator, range-workers released on every path, pool typestate, workers never change input contents.",
 		Decided: []string{
+			"every worker of the fan-out executors (which size the result channel to the worker count and drain it after Wait) sends at most once per invocation",
 			"at no call is an argument handed to another parameter than the one it is named after while that parameter exists with the same type (the start/last bounds of the per-range merge kernels, found-set/filter-set)",
 			"the per-range merge kernels of ParOr (lazyOrOnRange, lazyIOrOnRange, orOnRange, iorOnRange) keep their cached table length in step with insertions and reload the cached key whenever a cursor moves: otherwise the answer depends on how many keys a worker's range spans, i.e. on the worker count",
 			"no computed key is truncated into the key type in ParOr's chunk arithmetic",
